@@ -45,6 +45,18 @@ pub fn symbol_bits(ctx: &Context, syms: &[ExprRef]) -> u64 {
 
 /// environments for system `a` (by its symbols); exhaustive when the symbols total <= `exh_bits`
 pub fn environments(ctx: &Context, syms: &[ExprRef], rng: &mut SplitMix, exh_bits: u32, samples: usize) -> (Vec<Env>, bool) {
+    environments_for(ctx, syms, &[], rng, exh_bits, samples)
+}
+
+/// like `environments`, sampled assignments also draw on the literals below `roots`
+pub fn environments_for(
+    ctx: &Context,
+    syms: &[ExprRef],
+    roots: &[ExprRef],
+    rng: &mut SplitMix,
+    exh_bits: u32,
+    samples: usize,
+) -> (Vec<Env>, bool) {
     // a symbol may occur twice (input that is also a state): dedupe
     let mut uniq: Vec<ExprRef> = vec![];
     for s in syms {
@@ -52,7 +64,8 @@ pub fn environments(ctx: &Context, syms: &[ExprRef], rng: &mut SplitMix, exh_bit
             uniq.push(*s);
         }
     }
-    crate::props::c01::assignments(ctx, &uniq, rng, exh_bits, samples)
+    let dict = crate::props::c01::dictionary(ctx, roots);
+    crate::props::c01::assignments_with(ctx, &uniq, rng, exh_bits, samples, &dict)
 }
 
 #[derive(Debug)]
